@@ -61,6 +61,15 @@ func (p *Prog) ownedBy(fn *ssa.Function, allowed func(name string) bool) (string
 		if allowed(fnName(top)) {
 			return fnName(top), true
 		}
+		// a function of the reference tree that used to reach the code through an allowed function (it called the
+		// allowed wrapper there) and now calls the helper the wrapper was reduced to
+		if depth > 0 && p.onReferenceTree(top) {
+			for _, callee := range refCallees(fnName(top)) {
+				if allowed(callee) {
+					return callee, true
+				}
+			}
+		}
 		if depth > 5 {
 			return "", false
 		}
@@ -333,6 +342,18 @@ func (p *Prog) ownedByOutside(fn *ssa.Function, cluster []*ssa.Function, allowed
 			owner = fnName(cf)
 			continue
 		}
+		if p.onReferenceTree(cf) {
+			viaRef := ""
+			for _, callee := range refCallees(fnName(cf)) {
+				if allowed(callee) {
+					viaRef = callee
+				}
+			}
+			if viaRef != "" {
+				owner = viaRef
+				continue
+			}
+		}
 		o, ok := p.ownedBy(cf, allowed)
 		if !ok {
 			return "", false
@@ -408,4 +429,32 @@ func ruleEventImmutable(c *Ctx) {
 			c.viol(fnName(fn), what, p.InstrPos(s), "a ResourceEvent is shared by all subscribers of the resource (other connections, other goroutines): storing into it after the fan-out makes one subscriber's value visible to the others")
 		}
 	}
+}
+
+// refCallees: the repository functions a function called on the reference tree (from the recorded effect table).
+func refCallees(name string) []string {
+	g := loadGolden()
+	t, ok := g.Tables[name]
+	if !ok {
+		return nil
+	}
+	seen := map[string]bool{}
+	var out []string
+	for _, r := range t.Rows {
+		for _, e := range r.Effects {
+			if !strings.HasPrefix(e, "call ") {
+				continue
+			}
+			c := e[len("call "):]
+			// "(*pkg.T).m(_,_)" -> "(*pkg.T).m"
+			if i := strings.LastIndex(c, "("); i > 0 {
+				c = c[:i]
+			}
+			if !seen[c] {
+				seen[c] = true
+				out = append(out, c)
+			}
+		}
+	}
+	return out
 }
